@@ -14,6 +14,12 @@
 (* `truncated') is not a message - the harness sends every such prefix     *)
 (* after a complete message on another connection and requires that it is  *)
 (* rejected and that the backend sees nothing of it.                       *)
+(* Types whose name starts with R are replies decoded by the p9 CLIENT     *)
+(* (Rreaddir, Rwalk, Rread, the xattr list, Rreadlink): `seen' is then     *)
+(* what the call returned to its caller.  NoCarryOver is a state           *)
+(* invariant over all of `seen', so what a call returned must still be its *)
+(* own reply's content after every later message - the harness compares    *)
+(* every earlier result again after each message of the history.           *)
 (***************************************************************************)
 EXTENDS Integers, Sequences, FiniteSets, TLC
 
